@@ -75,21 +75,7 @@ fn wit_for(k: u8) -> Wit {
     }
 }
 
-fn damaged_graph(kind: u8) -> Vec<u8> {
-    let g = crate::rlnh::graph_bytes();
-    match kind % 4 {
-        0 => {
-            // header, "one node follows", an empty node record
-            let mut v = b"wtns.graph.001".to_vec();
-            v.extend_from_slice(&1u64.to_le_bytes());
-            v.extend_from_slice(&[0u8; 16]);
-            v
-        }
-        1 => g[..g.len() / 2].to_vec(),
-        2 => g[..g.len() - 3].to_vec(),
-        _ => g[..40].to_vec(),
-    }
-}
+use crate::rlnh::damaged_graph;
 
 impl RCall {
     fn kind(&self) -> &'static str {
